@@ -49,6 +49,25 @@ def contents(rng, n=48):
     return good, bad, over, cut
 
 
+CONTENTS = ("rand", "zero", "one", "edge")
+
+
+def contents_variant(rng, name):
+    """Boundary sizes of the intended distfile: zero-length (legal: Manifest entries with size 0 exist; the verified
+    file IS the empty file, a same-size corrupt file cannot exist so 'corrupt' writes one stray byte), one byte (the
+    only partial prefix is the empty file), and a 48-byte file whose partial prefix is exactly one byte short."""
+    if name == "rand":
+        return contents(rng)
+    if name == "zero":
+        return "", "#", "ab", 0
+    if name == "one":
+        return "x", "#", "xy", 0
+    if name == "edge":
+        good, bad, over, _cut = contents(rng)
+        return good, bad, good + "Z", len(good) - 1
+    raise ValueError(name)
+
+
 def script_text(ctl, good, bad, over, cut):
     return (SCRIPT.replace("@CTL@", ctl).replace("@GOOD@", good).replace("@BAD@", bad)
             .replace("@OVER@", over).replace("@CUT@", str(cut)))
@@ -62,14 +81,35 @@ def configs(tier):
     """Configurations in priority order: dicts T, attempts, uris, pre, resume_distinct, stratum."""
     out = []
 
-    def add(T, n, u, pre, rd, stratum):
-        out.append({"T": T, "attempts": n, "uris": u, "pre": pre, "resume_distinct": rd, "stratum": stratum})
+    def add(T, n, u, pre, rd, stratum, content="rand"):
+        out.append({"T": T, "attempts": n, "uris": u, "pre": pre, "resume_distinct": rd, "stratum": stratum,
+                    "content": content})
 
     top = 2 if tier == "quick" else 3
+    # Z: boundary sizes of the intended file, first because they are cheap (almost every outcome ends the run):
+    # zero-length target delivered by an attempt / already present, for every target kind that can describe it
+    for n in range(1, top + 1):
+        for T in ("full", "size", "nosize"):      # without any checksum an empty file is unspecified anyway
+            add(T, n, n, "absent", True, "Z:zero-length", "zero")
+        add("full", n, n, "correct", True, "Z:zero-length", "zero")
+        add("size", n, n, "correct", True, "Z:zero-length", "zero")
+        add("full", n, n, "oversized", True, "Z:zero-length", "zero")
+    add("full", 3, 2, "absent", True, "Z:zero-length", "zero")
+    add("full", 2, 2, "absent", False, "Z:zero-length", "zero")
     # A: every sequence of length n, all target kinds, nothing on disk before, as many URIs as attempts
     for n in range(1, top + 1):
         for T in TARGETS:
             add(T, n, n, "absent", True, "A:n<=%d,absent" % top)
+    # Z2: one-byte file (partial prefix = empty file) and a partial that is exactly one byte short
+    for content in ("one", "edge"):
+        for n in range(1, top + 1):
+            add("full", n, n, "absent", True, "Z:%s" % content, content)
+        add("full", 2, 2, "partial", True, "Z:%s" % content, content)
+        add("size", 2, 2, "absent", True, "Z:%s" % content, content)
+    if tier != "quick":
+        add("full", 4, 4, "absent", True, "Z:zero-length", "zero")
+        add("size", 4, 4, "absent", True, "Z:zero-length", "zero")
+        add("full", 4, 4, "absent", True, "Z:one", "one")
     if tier != "quick":
         # E1: the full bound n = 4 for the fully checksummed target
         add("full", 4, 4, "absent", True, "E:n=4,absent")
